@@ -98,12 +98,27 @@ class SymGen(object):
         self.decls.append(("axis", name, {"size": size}))
         return ax
 
-    def array(self, name, axes=("n",), kinds=ALL_KINDS, dtype="float", min_size=0):
+    def array(self, name, axes=("n",), kinds=ALL_KINDS, dtype="float", min_size=0, bound_axis=None):
         axs = tuple(self.axis(a, min_size=min_size) if isinstance(a, str) else a for a in axes)
+        if dtype == "int":
+            kinds = (FIN,)
         nan_free = NAN not in kinds
         finite = PINF not in kinds and NINF not in kinds
         a = sym.raw_array(name, axs, dtype=dtype, nan_free=nan_free, finite=finite, kinds=list(kinds))
-        self.decls.append(("array", name, {"axes": [x.name for x in axs], "kinds": list(kinds), "dtype": dtype}))
+        if bound_axis is not None:
+            # index array: every element is a valid position of bound_axis (asserted where an element is read)
+            g0 = a.store.get
+            seen = set()
+
+            def get(idx):
+                e = g0(idx)
+                if e.v.get_id() not in seen:
+                    seen.add(e.v.get_id())
+                    CTX.facts.append(z3.And(e.v >= 0, e.v < bound_axis.size.v))
+                return e
+            a.store.get = get
+        self.decls.append(("array", name, {"axes": [x.name for x in axs], "kinds": list(kinds), "dtype": dtype,
+                                           "bound_axis": bound_axis.name if bound_axis is not None else None}))
         return a
 
     def num(self, name, kinds=(FIN,), integer=False, numpy=True):
@@ -143,13 +158,24 @@ class ConcGen(object):
     def __init__(self, values):
         self.values = values
         self.sizes = {}
+        self.min_sizes = {}
 
     def axis(self, name, size=None, min_size=0):
+        self.min_sizes[name] = max(min_size, self.min_sizes.get(name, 0))
         return name
 
-    def array(self, name, axes=("n",), kinds=ALL_KINDS, dtype="float", min_size=0):
+    def array(self, name, axes=("n",), kinds=ALL_KINDS, dtype="float", min_size=0, bound_axis=None):
         v = self.values["array:" + name]
         a = _np.array(v, dtype={"float": float, "int": int, "bool": bool}[dtype])
+        for ax, n in zip(axes, a.shape):
+            if ax in self.sizes and self.sizes[ax] != n:
+                raise PreconditionFailed()
+            self.sizes[ax] = n
+            if n < self.min_sizes.get(ax, 0):
+                raise PreconditionFailed()
+        if bound_axis is not None:
+            if bound_axis not in self.sizes or (a.size and (a.min() < 0 or a.max() >= self.sizes[bound_axis])):
+                raise PreconditionFailed()
         return a
 
     def num(self, name, kinds=(FIN,), integer=False, numpy=True):
@@ -182,6 +208,7 @@ class SymSpec(object):
     symbolic = True
     nan = SNum(NAN)
     inf = SNum(PINF)
+    np = shim_np.np_shim
 
     def __init__(self, eng):
         self.eng = eng
@@ -312,6 +339,9 @@ class SymSpec(object):
         k = loops[0][0]
         return [(SNum(FIN, k, is_int=True, is_numpy=False), lst[0])]
 
+    def count_where_axes(self, axes, pred):
+        return sym.count_atom(tuple(axes), lambda idx: self.z(pred(idx)))
+
     def count_where(self, arr, pred):
         """number of (selected) index points of arr's domain where pred(i) holds"""
         return sym.count_atom(arr.axes, lambda idx: And(arr.sel_at(idx), self.z(pred(idx))))
@@ -393,6 +423,7 @@ class ConcSpec(object):
     symbolic = False
     nan = float("nan")
     inf = float("inf")
+    np = _np
 
     def and_(self, *bs): return all(bool(b) for b in bs)
     def or_(self, *bs): return any(bool(b) for b in bs)
@@ -651,7 +682,7 @@ def enumerate_witness(o, decls, seed=0, budget=6000, sizes=(1, 2, 3), stop_at_fi
                 else:
                     vals = [v for v in GRID_ARR if FIN in info["kinds"]] + [special[k] for k in info["kinds"] if k not in (FIN, MASKED)]
                     if info["dtype"] == "int":
-                        vals = [0, 1, 2]
+                        vals = list(range(n)) if info.get("bound_axis") else [0, 1, 2]
                 names.append("array:" + name); domains.append(("array", vals, shape))
         total = 1
         for d in domains:
